@@ -161,6 +161,7 @@ func (n *Net) Dial(ctx context.Context, network, addr string) (net.Conn, error) 
 	stream := key(network, "") == "tcp:"
 	c, s := n.pair(stream, addr)
 	c.DialTask = simrt.CurTaskID()
+	c.DialAt, c.DialStep = simrt.S.Elapsed(), simrt.S.Steps()
 	if n.OnDial != nil {
 		n.OnDial(c)
 	}
@@ -208,7 +209,12 @@ type Conn struct {
 	Reads       int
 
 	DialTask int // id of the task that dialled
-	// WriteHook, if set, is called after each successful Write (same task).
+	DialAt   time.Duration
+	DialStep int
+	// silentDead: the peer is gone but neither FIN nor RST has reached this end;
+	// the next Write triggers the RST.
+	silentDead bool
+	// WriteHook, if set, is called for each Write attempt on an open connection (same task).
 	WriteHook func(c *Conn, b []byte)
 }
 
@@ -358,10 +364,25 @@ func (c *Conn) write(p []byte, tag any, framed bool) (int, error) {
 	if c.closed {
 		return 0, &net.OpError{Op: "write", Net: "sim", Err: net.ErrClosed}
 	}
+	if c.WriteHook != nil {
+		// every write attempt on an open connection, whatever its fate
+		c.WriteHook(c, append([]byte(nil), p...))
+	}
 	if c.FailWriteAt != 0 && c.Writes == c.FailWriteAt {
 		simrt.Fault("write_error")
 		c.Net.logf(c, "writeerr", 0, nil)
 		return 0, &net.OpError{Op: "write", Net: "sim", Err: ErrInjWrite}
+	}
+	if c.silentDead {
+		simrt.Fault("write_on_silently_dead_conn")
+		c.silentDead = false
+		c.rd.rst = ErrReset
+		c.rd.signal()
+		c.Net.logf(c, "write_hits_dead_peer", len(p), tag)
+		if simrt.Choose(2) == 0 {
+			return 0, &net.OpError{Op: "write", Net: "sim", Err: ErrReset}
+		}
+		return len(p), nil
 	}
 	if c.rd.rst != nil {
 		if c.Net.LazyRST {
@@ -399,9 +420,6 @@ func (c *Conn) write(p []byte, tag any, framed bool) (int, error) {
 	}
 	c.Net.logf(c, "write", len(p), tag)
 	h.signal()
-	if c.WriteHook != nil {
-		c.WriteHook(c, cp)
-	}
 	return len(p), nil
 }
 
@@ -480,6 +498,21 @@ func (c *Conn) Reset() {
 	c.wr.rst = ErrReset
 	c.wr.signal()
 	c.Net.logf(c, "rst", 0, nil)
+}
+
+// KillSilently makes the server end vanish without FIN/RST: the client learns
+// about it only when it writes next (NAT timeout, crashed peer).
+func (c *Conn) KillSilently() {
+	simrt.Yield(siteClose)
+	simrt.Fault("conn_silent_kill")
+	c.closed = true
+	select {
+	case <-c.closedCh:
+	default:
+		close(c.closedCh)
+	}
+	c.peer.silentDead = true
+	c.Net.logf(c, "silent_kill", 0, nil)
 }
 
 // ---- listener ----
